@@ -17,6 +17,7 @@ from harness import core, batchdrv
 
 def run(chk):
     proofs_ok = core.standard_proof_phase(chk, "C07", gen_needed=("BatchGen",))
+    core.extra_props_phase(chk, "C07_system")     # the same contract as a guard of the system acceptor
     logging.disable(logging.CRITICAL)
     tmp = tempfile.mkdtemp(prefix="verif_c07_")
     quick = chk.tier == "quick"
